@@ -64,17 +64,24 @@ class P(MetProp):
         if kind == "nested":
             # a parenthesised operation as the RIGHT operand of an operator of the same precedence class: x - (y + z), x / (y * z),
             # x % (y % z), x > (y > z), x unless (y unless z): the parentheses decide, at evaluation too
-            op1, op2 = rng.choice([("-", "+"), ("-", "-"), ("/", "*"), ("/", "/"), ("%", "%"), ("*", "/"), (">", ">"), ("==", "!="), ("unless", "unless"), ("and", "unless"), ("-", "*"), ("^", "^")])
+            op1, op2 = rng.choice([("-", "+"), ("-", "-"), ("/", "*"), ("/", "/"), ("%", "%"), ("*", "/"), (">", ">"), ("==", "!="), ("unless", "unless"), ("and", "unless"), ("-", "*"), ("^", "^"),
+                                   # a NaN operand (x / 0, x % 0) under every comparison: all false except != (IEEE 754)
+                                   ("<", "/0"), ("<=", "/0"), (">", "%0"), (">=", "/0"), ("==", "%0"), ("!=", "/0")])
+            nan = op2 in ("/0", "%0")
             Y = side("r", ["app"]) if rng.random() < 0.5 else m.mvector(rng.choice([2, 3, 5]))
             Z = m.mvector(rng.choice([2, 3, 7])) if Y["k"] != "vector" or rng.random() < 0.5 else side("l", ["app"], 0)
+            if nan:
+                op2, Z = op2[0], m.mvector(0)
             X = L if rng.random() < 0.6 else m.mvector(rng.choice([10, 16, 17, 100]))
             ix, iy, iz = add(X), add(Y), add(Z)
             inner = m.mbin(op2, Y, Z)
             ii = add(inner)
-            e = m.mbin(op1, X, inner)
-            rel = lambda a, b2, c, o: ("MRelSet %d %d %d %s" % (a, b2, c, BOP[o])) if o in SETOPS + ["or"] else ("MRelBin %d %d %d %s false" % (a, b2, c, BOP[o]))
+            rb = nan and rng.random() < 0.4
+            flip = nan and rng.random() < 0.3
+            e = m.mbin(op1, inner, X, rb) if flip else m.mbin(op1, X, inner, rb)
+            rel = lambda a, b2, c, o, rb2=False: ("MRelSet %d %d %d %s" % (a, b2, c, BOP[o])) if o in SETOPS + ["or"] else ("MRelBin %d %d %d %s %s" % (a, b2, c, BOP[o], "true" if rb2 else "false"))
             rels.append(rel(iy, iz, ii, op2))
-            rels.append(rel(ix, ii, add(e), op1))
+            rels.append(rel(ii, ix, add(e), op1, rb) if flip else rel(ix, ii, add(e), op1, rb))
         elif kind == "vv":
             op = rng.choice(ARITH + CMP)
             rb = op in CMP and rng.random() < 0.4
